@@ -181,6 +181,28 @@ func init() {
 		}
 		return "ok"
 	})
+	// tbl <name>: the live package-level tables (select8Lookup and idxToPath through the verif hooks)
+	reg("tbl", func(a []string) string {
+		switch a[0] {
+		case "select8":
+			t := bitmap.VerifSelect8Lookup()
+			r := make([]uint64, len(t))
+			for i, v := range t {
+				r[i] = uint64(v)
+			}
+			return showU64s(r)
+		case "idxtopath":
+			rows := []string{}
+			for _, row := range bmtree.VerifIdxToPath() {
+				rows = append(rows, showU64s(row))
+			}
+			return strings.Join(rows, ";")
+		case "masks":
+			return strings.Join([]string{showU64s(bitmap.Mask[:]), showU64s(bitmap.RMask[:]), showU64s(bitmap.MaskUpto[:]),
+				showU64s(bitmap.RMaskUpto[:]), showU64s(bitmap.Bit[:]), showU64s(bitmap.RBit[:])}, ";")
+		}
+		panic("harness: no such table " + a[0])
+	})
 	reg("getw", func(a []string) string {
 		return strconv.FormatUint(bitmap.Getw(parseU64s(a[0]), mustI32(a[1]), mustI32(a[2])), 10)
 	})
